@@ -1,5 +1,6 @@
 """C19 — sequence completion (make_matching_sequence) is sound, complete and shortest."""
 
+import os
 import random
 from collections import Counter
 
@@ -34,7 +35,8 @@ RULE = (
     "viable for every pattern; 'longer than the minimum but minimal in G' and 'ImpossibleSequenceError although a solution "
     "exists, but none in G' carry sig D4-not-shortest / D4-false-impossible, everything else is a violation. "
     "Cases whose greedy search tree (counted by the reference) exceeds 2500 nodes are skipped and counted "
-    "(label skipped:library_search_too_large) because the library deep-copies every matcher per node. "
+    "(label skipped:library_search_too_large) because the library deep-copies every matcher per node; a library call that "
+    "nevertheless burns more than 40 s CPU is cut off and reported (hang protection). "
     "Non-trivial = the reference minimum needs at least one inserted symbol, or there are >= 2 patterns and >= 1 required "
     "symbol; distinct by (required, pattern texts, depth_limit, symbol_priority)."
 )
@@ -52,6 +54,7 @@ ASSUMPTIONS = [
 ]
 
 NODE_LIMIT = 2500
+LIBRARY_CPU_LIMIT = 40   # seconds of CPU time for one library call (hang protection)
 
 
 def EXHAUSTIVE(tier):
@@ -223,9 +226,15 @@ def judge_case(make_matching_sequence, Impossible, required, texts, trees, depth
     raised = False
     result = None
     try:
-        result = make_matching_sequence(list(required), *texts, **kwargs)
+        result = R.guarded_call(LIBRARY_CPU_LIMIT, make_matching_sequence, list(required), *texts, **kwargs)
     except Impossible:
         raised = True
+    except R.ReTimeout:
+        # hang protection only: the unchanged library needs well under a second for a case of this size
+        col.fail("no-answer-within-cpu-limit", data,
+                 "make_matching_sequence used more than %d s CPU for %r although the greedy search tree has at most %d "
+                 "nodes" % (LIBRARY_CPU_LIMIT, data, NODE_LIMIT))
+        return labels + ["outcome:VIOLATION"], False, None
     except Exception as e:
         col.fail(col.crash_bucket(e), data, "make_matching_sequence raised %s: %r for %r" % (type(e).__name__, e, data))
         return labels + ["outcome:crash"], False, None
@@ -419,7 +428,8 @@ def real_cases():
 def shards(tier):
     out = [("hyp", k, 16) for k in range(16)]
     out += [("real", k, 16) for k in range(16)]
-    out += [("box", k, 24) for k in range(24)]
+    if os.environ.get("VPBT_SKIP_BOX") != "1":   # development aid only (seed sweeps: the box does not depend on the seed)
+        out += [("box", k, 24) for k in range(24)]
     return out
 
 
